@@ -149,7 +149,11 @@ func c05One(c *bx.Ctx, v ref.V) {
 	switch x := v.P.(type) {
 	case *rtcp.TransportLayerCC:
 		if int(x.Len()) != len(b) {
-			c.Report("C05/TransportLayerCC/Len-accessor", "Len() disagrees with the output length", rp(fmt.Sprint(len(b)), fmt.Sprint(x.Len())))
+			k := "C05/TransportLayerCC/Len-accessor"
+			if len(b) > 65535 && int(x.Len()) == len(b)&0xffff {
+				k += "/over-65535-octets" // Len() returns uint16: the size modulo 65536
+			}
+			c.Report(k, "Len() disagrees with the output length", rp(fmt.Sprint(len(b)), fmt.Sprint(x.Len())))
 			ok = false
 		}
 		c.T(1)
